@@ -26,8 +26,12 @@ PROPS['C17'] = dict(
     level='proof',
     module='SlotVerif.Props.C17',
     suites=[dict(name='slot', variant='default',
-                 quick=dict(count=30000), thorough=dict(count=1000000))],
-    rule='corr.slot.table: random interleavings (2-30 ops) of Slot::fresh / Slot::numeric / Slot::named / Display / '
+                 quick=dict(count=30000), thorough=dict(count=1000000)),
+            dict(name='mat', variant='default', shrink=False, quick=dict(count=400, timeout=900), thorough=dict(count=10000, timeout=3000))],
+    rule='(the consequence "slots invented internally never capture a user slot" is exercised through the matcher: the `mat` suite of C05, '
+         'where a third of the derived patterns spell their slots like slots the e-graph invented for its own classes — `$f<N>` names read '
+         'back from printed classes — and the match lists are compared with the Lean matcher model and validated one by one) '
+         'corr.slot.table: random interleavings (2-30 ops) of Slot::fresh / Slot::numeric / Slot::named / Display / '
          'print-then-parse in a fresh thread (empty slot table), names drawn from a pool of plain identifiers, f<n>, f0<n>, '
          'f+<n>, <n>, 0<n>, +<n>, numbers around 2^30 and 2^32, empty, unicode digits, names starting with $; a third of the identifier-like names '
          'reach the table through the parser (RecExpr::parse("(var $<name>)")), and printed slots are parsed back both by Slot::named and through the parser; final equality matrix of all issued '
